@@ -146,7 +146,8 @@ func c03Wire(c *ctx) {
 					host = randCase(r, host) + choose(r, c03Ports)
 					path := choose(r, c03ReqPaths)
 					if r.Intn(2) == 0 {
-						path = strings.TrimRight(routes[r.Intn(len(routes))].Path, "*{") + choose(r, []string{"", "", "/x", "x"})
+						// (a '?' in a request target would start the query: the pattern character becomes a digit)
+						path = strings.NewReplacer("?", "1").Replace(strings.TrimRight(routes[r.Intn(len(routes))].Path, "*{")) + choose(r, []string{"", "", "/x", "x"})
 					}
 					if path == "" || path[0] != '/' {
 						path = "/" + path
